@@ -171,3 +171,37 @@ func CmpE2E(st storage.Store, m *EModel, extra []string) error {
 	}
 	return nil
 }
+
+// SortForUnordered rearranges every expected mailbox into the arrival order the store
+// happens to show, matching messages by envelope sender and transmitted content; used when
+// deliveries from concurrent sessions share a mailbox and their order is not determined.
+func SortForUnordered(st storage.Store, m *EModel) {
+	for name, want := range m.Boxes {
+		got, err := st.GetMessages(name)
+		if err != nil || len(got) != len(want) {
+			continue
+		}
+		used := make([]bool, len(want))
+		var re []*EMsg
+		for _, g := range got {
+			src, err := ReadSource(g)
+			if err != nil {
+				break
+			}
+			tr, body, ok := SplitTrace(src)
+			if !ok {
+				break
+			}
+			for i, w := range want {
+				if !used[i] && w.Sender == tr.ReturnPath && bytes.Equal(Canon(body), Canon(w.Data)) {
+					used[i] = true
+					re = append(re, w)
+					break
+				}
+			}
+		}
+		if len(re) == len(want) {
+			m.Boxes[name] = re
+		}
+	}
+}
